@@ -80,4 +80,4 @@ void h_AP(void)
 }
 //@run name=AddPaths_.n3 entry=h_AP defs=N=3 unwind=6 flags=SAFETY-unsigned timeout=600 bounded="one path of exactly 3 points, coordinates fully symbolic, open or closed"
 //@run name=AddPaths_.n4 entry=h_AP defs=N=4 unwind=7 flags=SAFETY-unsigned timeout=900 bounded="one path of exactly 4 points"
-//@run name=AddPaths_.n5 entry=h_AP defs=N=5 unwind=8 flags=SAFETY-unsigned timeout=900 bounded="one path of exactly 5 points" tier=thorough
+//@run name=AddPaths_.n5 entry=h_AP defs=N=5 unwind=8 flags=SAFETY-unsigned timeout=900 bounded="one path of exactly 5 points" tier=deep
